@@ -266,6 +266,32 @@ func offsetGuardScan(fs []*ssa.Function) (armed int, unarmed int, bad []offsetFi
 				}
 			}
 			if len(adequate) == 0 {
+				// a bound on the same operand that does not reach far enough, with the access reachable only behind it:
+				// the function states the belief that the access needs a bound, and the bound it gives is too short
+				var weak []offGuard
+				for _, g := range guards {
+					if sameValue(g.Base, a.Base) && sameValue(g.Var, a.Var) && g.Have < a.Need {
+						weak = append(weak, g)
+					}
+				}
+				if len(weak) > 0 {
+					cut := map[edge]bool{}
+					for _, g := range weak {
+						cut[g.Edge] = true
+					}
+					if _, hit := reach(entryOf(f), func(in ssa.Instruction) bool { return in == a.In }, cut, nil); hit == nil {
+						armed++
+						best := weak[0]
+						for _, g := range weak {
+							if g.Have > best.Have {
+								best = g
+							}
+						}
+						best.Desc += fmt.Sprintf(" — which establishes len(x) >= v+%d only, %d short", best.Have, a.Need-best.Have)
+						bad = append(bad, offsetFinding{f, a, []offGuard{best}})
+						continue
+					}
+				}
 				unarmed++
 				continue
 			}
